@@ -341,7 +341,8 @@ impl Arm {
 
 #[derive(Clone, Copy, Debug, PartialEq)]
 enum Mode {
-    Var,  // match s            (s is a local: its register is the match register)
+    Local, // s = p0; match s   (s is a local assigned in the function body)
+    Var,  // match s            (s is the function's argument: its register is the match register)
     Expr, // match id2(tr, s)   (temporary)
     Multi(usize), // match s, t[, u]
 }
@@ -367,12 +368,16 @@ impl MatchCase {
             Mode::Multi(k) => SUBJ_NAMES[..k].to_vec(),
             _ => vec!["s"],
         };
-        s.push_str(&format!("f = |{}|\n  tr = []\n", params.join(", ")));
+        let header = if self.mode == Mode::Local { "p0".to_string() } else { params.join(", ") };
+        s.push_str(&format!("f = |{}|\n  tr = []\n", header));
+        if self.mode == Mode::Local {
+            s.push_str("  s = p0\n");
+        }
         for v in VARS {
             s.push_str(&format!("  {} = 'U'\n", v));
         }
         let subj = match self.mode {
-            Mode::Var => "s".to_string(),
+            Mode::Var | Mode::Local => "s".to_string(),
             Mode::Expr => "id2(tr, s)".to_string(),
             Mode::Multi(_) => {
                 // the first subject goes through the tracing call: evaluated exactly once
@@ -416,13 +421,13 @@ impl MatchCase {
         s.push_str(&format!("  (r, tr, {}, {})\n", VARS.join(", "), params.join(", ")));
         s.push_str(&format!(
             "h = |{p}|\n  try\n    f {p}\n  catch err\n    ('E', \"{{err}}\")\nh\n",
-            p = params.join(", ")
+            p = header
         ));
         s
     }
     fn request(&self) -> String {
         let mode = match self.mode {
-            Mode::Var => "v",
+            Mode::Var | Mode::Local => "v",
             Mode::Expr => "e",
             Mode::Multi(_) => "m",
         };
@@ -457,7 +462,7 @@ impl MatchCase {
         }
     }
     fn binds_subject(&self) -> bool {
-        self.mode == Mode::Var && self.arms.iter().any(|a| a.vars().contains(&SUBJ_VAR))
+        matches!(self.mode, Mode::Var | Mode::Local) && self.arms.iter().any(|a| a.vars().contains(&SUBJ_VAR))
     }
     fn nsubj(&self) -> usize {
         match self.mode {
@@ -1108,6 +1113,59 @@ fn same_name_cases() -> Vec<MatchCase> {
     out
 }
 
+/// arm count × subject kind × patterns that rebind the subject's own name in first / middle / last
+/// sub-pattern position: 1, 2 and 3 arms, with and without `else`, subject = function argument,
+/// local variable, temporary expression (65de4a1 copies a subject held in a local's register; the
+/// single-arm match is the one an "optimisation" is tempted to skip)
+fn rebind_cases() -> Vec<MatchCase> {
+    let s = SUBJ_VAR;
+    let id = |x: usize| P::Id(x, None);
+    let seq = |ps: Vec<P>| P::Seq(ps, Rest::None, vec![]);
+    let rebinders: Vec<P> = vec![
+        seq(vec![id(s), id(0)]),
+        seq(vec![id(s), id(0), id(1)]),
+        seq(vec![id(0), id(s), id(1)]),
+        seq(vec![id(0), id(1), id(s)]),
+        P::Seq(vec![id(s)], Rest::Named(0), vec![]),
+        P::Seq(vec![id(s), id(0)], Rest::Named(1), vec![]),
+        P::Seq(vec![id(0)], Rest::Named(s), vec![]),
+        P::Seq(vec![], Rest::Named(s), vec![id(0), id(1)]),
+        P::Seq(vec![], Rest::Named(0), vec![id(s), id(1)]),
+        P::Seq(vec![], Rest::Named(0), vec![id(1), id(s)]),
+        seq(vec![seq(vec![id(s), id(0)]), id(1)]),
+        seq(vec![id(0), seq(vec![id(s), id(1)])]),
+        seq(vec![P::Map(vec![Ent { key: "a".into(), bind: Bind::As(s), ty: None }], None), id(0)]),
+        P::Map(vec![Ent { key: "a".into(), bind: Bind::As(s), ty: None }, Ent { key: "b".into(), bind: Bind::Same(1), ty: None }], None),
+        seq(vec![P::Id(s, Some(Ty("Any", false))), id(0)]),
+    ];
+    let other = |k: usize| -> Arm {
+        match k {
+            0 => Arm { alts: vec![vec![P::Lit(V::S("never".into()))]], guard: None },
+            _ => Arm { alts: vec![vec![seq(vec![id(2), P::Lit(V::S("never".into()))])]], guard: None },
+        }
+    };
+    let else_arm = Arm { alts: vec![], guard: None };
+    let mut out = vec![];
+    for p in &rebinders {
+        let main = Arm { alts: vec![vec![p.clone()]], guard: None };
+        let shapes: Vec<Vec<Arm>> = vec![
+            vec![main.clone()],
+            vec![main.clone(), else_arm.clone()],
+            vec![other(0), main.clone()],
+            vec![main.clone(), other(1)],
+            vec![other(0), main.clone(), else_arm.clone()],
+            vec![other(0), other(1), main.clone()],
+            vec![other(1), main.clone(), other(0)],
+        ];
+        for arms in shapes {
+            for mode in [Mode::Var, Mode::Local, Mode::Expr] {
+                out.push(MatchCase { arms: arms.clone(), mode, origin: "rebind-subject", rctx: None });
+            }
+        }
+    }
+    out
+}
+
 /// "a guarded wildcard is not an else": the last arm is `_ if g` / `x if g` (typed or not, also a
 /// parenthesised pattern) whose guard is false, after 0..2 arms that may or may not match, with the
 /// match's value going to every kind of result position — no arm runs ⇒ null, never a stale value
@@ -1284,7 +1342,7 @@ impl<'a> Gen<'a> {
     fn case(&mut self) -> MatchCase {
         let mode = match self.rng.below(6) {
             0 | 1 | 2 => Mode::Expr,
-            3 => Mode::Var,
+            3 => if self.rng.chance(1, 2) { Mode::Var } else { Mode::Local },
             4 => Mode::Multi(2),
             _ => Mode::Multi(if self.rng.chance(1, 3) { 3 } else { 2 }),
         };
@@ -1295,7 +1353,7 @@ impl<'a> Gen<'a> {
                 Mode::Multi(k) => k,
                 _ => 1,
             }
-        } else if mode == Mode::Var && self.allow_quirks {
+        } else if matches!(mode, Mode::Var | Mode::Local) && self.allow_quirks {
             1
         } else {
             0
@@ -1796,6 +1854,91 @@ impl Ctx {
     }
 }
 
+impl Ctx {
+    /// multi-assignment from a STATEFUL source (generator instance, iterator value, adaptor,
+    /// peekable) that is observed again afterwards: a second unpacking, `.next()`, `to_tuple()`.
+    /// Every target — `_`, `_name`, `_: T` included, in first, middle and last position — consumes
+    /// exactly one element (Unpack.assignSt / theorem assignSt_spec).
+    fn run_stateful_unpack(&mut self, ts: &[Option<usize>], style: u8) {
+        let n = nregs(ts);
+        let lhs: Vec<String> = ts
+            .iter()
+            .map(|t| match t {
+                Some(x) => VARS[*x].to_string(),
+                None => ["_", "_skip", "_: Any"][style as usize].to_string(),
+            })
+            .collect();
+        let has_wild = ts.iter().any(|t| t.is_none());
+        let assign = format!("{}{} = it", if style == 2 && has_wild { "let " } else { "" }, lhs.join(", "));
+        let regs = if n == 0 { "(,)".to_string() } else { format!("({}{})", VARS[..n].join(", "), if n == 1 { "," } else { "" }) };
+        let mut script = String::from(
+            "mkgen = |xs|\n  g = ||\n    for x in xs\n      yield x\n  g()\nf = |xs, k|\n  it = match k\n    0 then mkgen xs\n    1 then xs.iter()\n    2 then xs.each |x| x\n    else xs.peekable()\n",
+        );
+        for v in &VARS[..n] {
+            script.push_str(&format!("  {} = 'U'\n", v));
+        }
+        script.push_str(&format!(
+            "  {}\n  r1 = {}\n  p = 'U'\n  q = 'U'\n  p, q = it\n  nx = it.next()\n  nxv = if nx == null then 'END' else nx.get()\n  rest = it.to_tuple()\n  (r1, (p, q), nxv, rest)\nf\n",
+            assign, regs
+        ));
+        let mut koto = Koto::default();
+        let f = match koto.compile_and_run(script.as_str()) {
+            Ok(f) => f,
+            Err(e) => {
+                self.compile_fail += 1;
+                self.rep.violation("D", "C03:compile", json!({"program": script, "error": e.to_string(), "origin": "stateful-unpack"}));
+                return;
+            }
+        };
+        for len in 0..=(ts.len() + 4) {
+            let xs: Vec<V> = (0..len as i64).map(|i| V::I(10 + i)).collect();
+            let vals = xs.iter().map(|x| x.canon()).collect::<Vec<_>>().join(" ");
+            // model: first assignment, then `p, q = it`, then one `.next()`, then the rest
+            let m1 = self.drv.ask(&format!("mas {} {}", tgt_sexp(ts), vals));
+            let (regs1, rest1) = m1.split_once(" ; ").unwrap_or((m1.as_str(), "(t)"));
+            let rest1_vals = rest1.trim_start_matches("(t").trim_end_matches(')').trim().to_string();
+            let m2 = self.drv.ask(&format!("mas (0 1) {}", rest1_vals));
+            let (regs2, rest2) = m2.split_once(" ; ").unwrap_or((m2.as_str(), "(t)"));
+            let rest2_items = split_vals(rest2.trim_start_matches("(t").trim_end_matches(')'));
+            let (nxv, tail) = match rest2_items.split_first() {
+                Some((h, t)) => (h.clone(), t.to_vec()),
+                None => ("sx454e44".to_string(), vec![]),
+            };
+            let want = format!(
+                "(t (t{}{}) (t {}) {} (t{}))",
+                if n == 0 { " null" } else { " " },
+                if n == 0 { "" } else { regs1 },
+                regs2,
+                nxv,
+                tail.iter().map(|x| format!(" {}", x)).collect::<String>()
+            );
+            for k in 0..4i64 {
+                let arg = self.imp.value(&V::T(xs.clone()));
+                let got = match koto.call_function(f.clone(), &[arg, KValue::Number(k.into())][..]) {
+                    Ok(r) => kvh::canon::value(&r),
+                    Err(e) => format!("E:{}", e.to_string().lines().next().unwrap_or("")),
+                };
+                let key = format!("stateful {} style{} src{} len{}", tgt_sexp(ts), style, k, len);
+                self.rep.case(&key, true);
+                self.rep.bump("unpack=stateful-source");
+                self.rep.bump(&format!("stateful_source={}", ["generator", "iter()", "adaptor", "peekable"][k as usize]));
+                if got != want {
+                    self.k_fail += 1;
+                    if self.k_fail <= 6 {
+                        self.rep.violation(
+                            "D",
+                            "C03:unpack:stateful",
+                            json!({"program": format!("{}\n# call: f({}, {})", script, V::T(xs.clone()).koto(), k), "targets": lhs.join(", "),
+                                   "impl": got, "model": want,
+                                   "note": "multi-assignment from a stateful source observed again afterwards: every target, wildcards included, consumes exactly one element"}),
+                        );
+                    }
+                }
+            }
+        }
+    }
+}
+
 // ---------------------------------------------------------------------------------------------
 // corpus scripts: `#: expected output line`
 
@@ -2000,6 +2143,13 @@ fn main() {
     }
     cx.rep.extra.insert("same_name_sets".into(), json!(sn.len()));
 
+    // --- 2b'. arm count × subject kind × rebinding the subject's own name
+    let rb = rebind_cases();
+    for mc in &rb {
+        cx.run_match_case(mc, &all_subjects);
+    }
+    cx.rep.extra.insert("rebind_subject_sets".into(), json!(rb.len()));
+
     // --- 2c. guarded last arms × result positions
     let gl = guarded_last_cases();
     for mc in &gl {
@@ -2086,6 +2236,30 @@ fn main() {
                 for k in 2..=(n + 2) {
                     cx.run_unpack_temp(&ts, k);
                 }
+            }
+        }
+    }
+    // stateful sources observed again afterwards
+    for n in 1..=3usize {
+        for mask in 0..(1u32 << n) {
+            let mut next = 0usize;
+            let ts: Vec<Option<usize>> = (0..n)
+                .map(|i| {
+                    if mask & (1 << i) != 0 {
+                        None
+                    } else {
+                        let x = next;
+                        next += 1;
+                        Some(x)
+                    }
+                })
+                .collect();
+            if n == 1 {
+                continue; // a single target is a plain assignment
+            }
+            let styles: &[u8] = if mask == 0 { &[0] } else { &[0, 1, 2] };
+            for st in styles {
+                cx.run_stateful_unpack(&ts, *st);
             }
         }
     }
